@@ -443,6 +443,9 @@ func cmdCheck(id, tier string) int {
 	if tier == "thorough" {
 		runs, wall = p.Thorough, p.ThorWall
 	}
+	if v, err := strconv.Atoi(os.Getenv("VERIF_RUNS")); err == nil && v > 0 {
+		runs = v // development override
+	}
 	workers := runtime.NumCPU()
 	if workers > 16 {
 		workers = 16
@@ -541,16 +544,16 @@ func cmdCheck(id, tier string) int {
 		"property_id": id, "tier": tier, "seed": int64(seed & 0x7fffffffffffffff), "level": p.Level,
 		"wall_s": wallS, "violations": nviol,
 		"coverage": map[string]any{
-			"evaluations":         agg.Runs,
-			"distinct_nontrivial": distinct,
-			"rule":                p.Rule,
-			"samples":             agg.Samples,
-			"exhaustive":          false,
-			"simulated_runs":      agg.Runs,
-			"runs_outside_property_scope": agg.Skipped,
-			"runs_per_hour":       int(float64(agg.Runs) / wallS * 3600),
-			"simulated_time_s":    float64(agg.SimTimeNs) / 1e9,
-			"scheduler_steps":     agg.Steps,
+			"evaluations":                  agg.Runs,
+			"distinct_nontrivial":          distinct,
+			"rule":                         p.Rule,
+			"samples":                      agg.Samples,
+			"exhaustive":                   false,
+			"simulated_runs":               agg.Runs,
+			"runs_outside_property_scope":  agg.Skipped,
+			"runs_per_hour":                int(float64(agg.Runs) / wallS * 3600),
+			"simulated_time_s":             float64(agg.SimTimeNs) / 1e9,
+			"scheduler_steps":              agg.Steps,
 			"distinct_decision_log_hashes": distinct,
 			"distinct_quiescent_states_sum_over_runs": agg.QStates,
 			"counters":            agg.Counters,
